@@ -212,6 +212,14 @@ def cmd (name : String) : P String := do
   | "admit_unitary" => do
       let a ← nat; let b ← nat; let c ← nat; let d ← nat
       return showRefusal (admitGeneratedUnitary (a != 0) (b != 0) (c != 0) (d != 0))
+  | "admit_opidx" => do
+      let norb ← nat; let idxs ← natList
+      return showRefusal (admitOpIndices norb idxs)
+  -- `admit_pattern <spinfree> <n> (label dag shaped)*n`
+  | "admit_pattern" => do
+      let sf ← nat; let n ← nat
+      let toks ← many n (do let l ← nat; let d ← nat; let s ← nat; return (⟨l, d != 0, s != 0⟩ : Tok))
+      return showRefusal (admitPattern (sf != 0) toks)
   -- Spec: many-body image of a one-body matrix.  `<norb> vec <(2norb)^2 entries re im, row-major, mode indexing>`
   | "gamma" => do
       let norb ← nat; let v ← vec
